@@ -54,9 +54,11 @@ CHECKS = {
         ref="3/C15"),
     "C19": dict(
         technique="runtime monitoring of generated programs: the expression is evaluated during dynamic initialisation and again inside main() under g++ and clang++, -O0/-O2(+O1/O3), 1-3 TUs with permuted link order; a non-perturbing probe records which library tables are populated when user initialisation starts",
-        text="One generated program per library facility (26 facilities x 3 numeric types), compiled with both compilers at several "
+        text="One generated program per library facility (29 facilities x 3 numeric types), compiled with both compilers at several "
              "optimisation levels, compares the value computed by a namespace-scope initialiser with the same expression in main(); "
-             "3-TU programs are linked in permuted orders. The schedules explored are exactly the initialisation orders the two compilers produce.",
+             "3-TU programs are linked in permuted orders. The schedules explored are exactly the initialisation orders the two compilers produce. "
+             "A further program family creates a namespace-scope constant in every declared unit (514 x 3 numeric types) with the compile-time "
+             "Create<unit>() and lets an initialiser that runs earlier read it: the object must have been constant-initialised.",
         note="Known finding (GCC, run-time conversion dispatch tables) is listed in known_findings.json per facility; everything else must pass.",
         ref="3/C19"),
     "C03": dict(
@@ -116,8 +118,10 @@ CHECKS = {
         text="Each named definition (dynamic pressure, total pressure, sound speed, Mach, Reynolds, Prandtl, gamma and R families, "
              "thermal diffusivity, kinematic viscosity, period/frequency, strain(-rate) from gradients, thermal strains, von Mises, "
              "traction, isotropic stress) is evaluated on independent positive inputs over +-20 decades in three numeric types and "
-             "compared per slot with the formula written on binary128; a removed relation is reported absent, one that no longer compiles is a violation.",
-        note="Bound 4 ulps (4*(ulp+Delta) for rows that subtract).",
+             "compared per slot with the formula written on binary128; a removed relation is reported absent, one that no longer compiles is a violation. "
+             "Inputs near the ends of the exponent range are replayed from a calibration file that records which of 256 fixed inputs per row "
+             "and numeric type held on the tree it was committed with.",
+        note="Bound 4 ulps (4*(ulp+Delta) for rows that subtract). calib/*.txt are regenerated by tools/calibrate.py only on a deliberate decision.",
         ref="3/C18"),
     "C02": dict(
         technique="runtime monitor: cross-checking oracle (every conversion entry point against the scalar conversion, component by component) with byte comparison of arguments of copying forms",
